@@ -34,6 +34,7 @@ CONSTANTS Budget, Mod, BasePads, OnlyTopos
 S(op, a, b) == [op |-> op, a |-> a, b |-> b]
 Fwd   == <<S("RECV", 0, 0), S("INC", 0, 0), S("SEND", 0, 0)>>                      \* o0 = i0 + 1
 Fan2  == <<S("RECV", 0, 0), S("SEND", 0, 0), S("INC", 0, 0), S("SEND", 0, 1)>>     \* o0 = i0, o1 = i0 + 1
+Split2 == <<S("RECV", 0, 0), S("SEND", 0, 0), S("SEND", 0, 1)>>                    \* o0 = o1 = i0 (two sends back to back)
 Merge == <<S("RECV", 0, 0), S("SEND", 0, 0), S("RECV", 1, 0), S("SEND", 0, 0)>>    \* o0 = i0, i1 alternating (one register)
 Sum   == <<S("RECV", 0, 0), S("RECV", 1, 1), S("ADD", 0, 1), S("SEND", 0, 0)>>     \* o0 = i0 + i1
 Fan3  == <<S("RECV", 0, 0), S("SEND", 0, 0), S("INC", 0, 0), S("SEND", 0, 1), S("INC", 0, 0), S("SEND", 0, 2)>>   \* o0 = i0, o1 = i0 + 1, o2 = i0 + 2
@@ -61,6 +62,9 @@ Topos ==
                 bonds |-> {Bond(XI(0), PO(1, 0)), Bond(PO(1, 0), PO(2, 0)), Bond(PO(1, 0), PO(3, 0)), Bond(PO(2, 0), XI(0)), Bond(PO(3, 0), XI(1))}],
    twoout  |-> [progs |-> <<Fan2, Fwd>>, nin |-> 1, nout |-> 2,
                 bonds |-> {Bond(XI(0), PO(1, 0)), Bond(PO(1, 0), XI(0)), Bond(PO(1, 1), PO(2, 0)), Bond(PO(2, 0), XI(1))}],
+   \* two sends back to back on a processor with exactly two outputs; the first one feeds a processor
+   split2  |-> [progs |-> <<Split2, Fwd>>, nin |-> 1, nout |-> 2,
+                bonds |-> {Bond(XI(0), PO(1, 0)), Bond(PO(1, 0), PO(2, 0)), Bond(PO(2, 0), XI(0)), Bond(PO(1, 1), XI(1))}],
    \* a merger fed by an external input and by a processor
    merge   |-> [progs |-> <<Fwd, Merge>>, nin |-> 2, nout |-> 1,
                 bonds |-> {Bond(XI(0), PO(2, 0)), Bond(XI(1), PO(1, 0)), Bond(PO(1, 0), PO(2, 1)), Bond(PO(2, 0), XI(0))}],
@@ -93,7 +97,10 @@ Init ==
   /\ pads \in [1 .. 3 -> 0 .. 2]
   /\ bpad \in BasePads
   /\ shared \in BOOLEAN                                   \* processors with the same program are instances of one domain
-  /\ envmode \in {"prompt", "holds-valid", "slow-ack"}    \* timing of the environment (never visible in the streams)
+  \* timing of the environment (never visible in the streams); serial: the external inputs are offered one
+  \* at a time, the next one only after the handshake of the previous one is over
+  \* stalls-outputs: the values on the odd external outputs are acknowledged late, the others at once
+  /\ envmode \in {"prompt", "holds-valid", "slow-ack", "serial", "stalls-outputs"}
   /\ simdelay \in {"none", "inc:6", "nop:3", "add:4", "r2owa:3", "i2rw:2"}     \* extra ticks one opcode takes in the simulator (never visible either)
   /\ pcs = [p \in 1 .. 3 |-> 0]
   /\ regs = [p \in 1 .. 3 |-> <<0, 0>>]
@@ -160,6 +167,7 @@ Exp(t, k, n) ==
     [] t = "fanout" -> Base(0) + 1 + k + (n - 1)
     [] t = "fanout2" -> Base(0) + 2 + (n - 1)
     [] t = "twoout" -> Base(0) + 2 * k + (n - 1)
+    [] t = "split2" -> Base(0) + (1 - k) + (n - 1)
     [] t = "merge" -> IF n % 2 = 1 THEN Base(0) + (n - 1) \div 2 ELSE Base(1) + 1 + (n - 2) \div 2
     [] t = "sum" -> Base(0) + Base(1) + 1 + 2 * (n - 1)
     [] t = "threeout" -> Base(0) + (IF k = 2 THEN 3 ELSE k) + (n - 1)
